@@ -131,6 +131,9 @@ def rat_search(chk, module, theorem, binaries, index, trials=80):
         if n == "tmin":
             fixed[n] = "(0 : Rat)"
             continue
+        if n == "tmax":
+            fixed[n] = "(1048576 : Rat)"
+            continue
         if n == "teps":
             fixed[n] = "((1 : Rat) / 64)"
             continue
@@ -199,7 +202,7 @@ def rat_search(chk, module, theorem, binaries, index, trials=80):
             rc2, out2 = lib.sh(cmd, timeout=120)
             real = out2.strip().split("\n")[-1] if out2.strip() else None
     return {"key": "theorem:" + theorem, "theorem_statement": stmt, "hypotheses_kept": kept, "failing_input": vs,
-            "evaluated_at": "Rat (sin x := 2x/(1+x²), cos x := (1−x²)/(1+x²), acos := id, sqrt := exact rational root, tmin := 0, "
+            "evaluated_at": "Rat (sin x := 2x/(1+x²), cos x := (1−x²)/(1+x²), acos := id, sqrt := exact rational root, tmin := 0, tmax := 2^20, "
                             "teps := 1/64), with the Gen definitions regenerated from the current tree",
             "real_code_at_double(real sin/cos)": real, "falsified_cases": len(bad)}
 
@@ -273,7 +276,7 @@ def run(chk):
                    "Spec/TransformSpec.lean: dot, cross, LenSpec, nrm, IsRot/IsFrame, axis rotations, Rodrigues' formula, alignZSpec",
                    "long double evaluation as the oracle of the measured rounding residue"]
     chk.assumptions = [
-        "Vec3::length() enters as the opaque Gen.V3.length tmin sqrt with the hypothesis LenSpec (len v ^ 2 = v·v, 0 ≤ len v); "
+        "Vec3::length() enters as the opaque Gen.V3.length tmin tmax sqrt with the hypothesis LenSpec (len v ^ 2 = v·v, 0 ≤ len v); "
         "what the extracted length() really computes is C08's subject",
         "sin/cos/acos are parameters: theorems assume only sin²+cos²=1 (and, for nextFrame_tangent, cos(acos x)=x, 0≤sin(acos x) on [-1,1], cos 0=1)",
         "nextFrame calls acosf for every element type: translator validation of nextFrame runs at float only; at double the model's "
